@@ -23,6 +23,8 @@ structure CipherModel where
   /-- `Debug` output (key independent by construction: no key argument) -/
   debug : String
   algName : String
+  /-- the type implements `Clone` (only `Xtea` does not) -/
+  clonable : Bool := true
 
 /-- lift a fixed-width block function to byte strings -/
 def liftBlock (n : Nat) (f : BitVec (8 * n) → BitVec (8 * n)) : Bytes → Bytes :=
